@@ -17,6 +17,12 @@ fn main() {
     if args.is_empty() {
         usage();
     }
+    if args[0] == "gen-corpus" {
+        // seed inputs for the libFuzzer targets (deterministic)
+        let dir = std::path::PathBuf::from(args.get(1).cloned().unwrap_or_else(|| "/verif/corpus".into()));
+        jbverif::fuzz_support::write_seed_corpus(&dir);
+        return;
+    }
     if args[0] == "list" {
         for d in props::all() {
             println!("{}", d.id);
@@ -44,6 +50,20 @@ fn main() {
             "--replay" => {
                 i += 1;
                 replay = Some(args.get(i).cloned().unwrap_or_else(|| usage()));
+            }
+            "--fuzz-artifact" => {
+                // --fuzz-artifact <sub-check> <file>: replay a libFuzzer input of a tape target
+                let sub = args.get(i + 1).cloned().unwrap_or_else(|| usage());
+                let file = args.get(i + 2).cloned().unwrap_or_else(|| usage());
+                let data = std::fs::read(&file).expect("artifact readable");
+                let tape = jbverif::tape::bytes_to_tape(&data);
+                let def = props::find(&id).unwrap_or_else(|| usage());
+                let list = (def.props)(Tier::Quick);
+                let p = list.iter().find(|p| p.name() == sub).unwrap_or_else(|| usage());
+                let mut s = Session::new(def.id, Tier::Quick, 0, def.level);
+                let ok = s.replay_tape(p.as_ref(), &tape, Tier::Quick);
+                jbverif::util::cleanup_scratch();
+                std::process::exit(if ok { 0 } else { 1 });
             }
             "--replay-bytes" => {
                 i += 1;
